@@ -21,7 +21,12 @@ var serverFaults = []string{
 	"omit-fib-acks", "empty-get", "incomplete-get", "ignore-flush", "misreport-election-id",
 	"accept-repeated-params", "nack-forward-references", "fail-idempotent-delete",
 	"fail-implicit-replace", "program-non-primary",
+	"get-omits-nh", "get-omits-nhg", "get-omits-ipv4", "get-omits-ipv6", "get-mislabels-ni",
 }
+
+// strictFaults: every designated test in which the fault manifested must fail (not just one of them),
+// because each of those tests asks for exactly the data the fault withholds.
+var strictFaults = map[string]bool{"get-omits-nh": true, "get-omits-nhg": true, "get-omits-ipv4": true, "get-omits-ipv6": true, "get-mislabels-ni": true}
 
 // designated returns the predicate selecting the tests written for the requirement a fault breaks.
 func designated(fault string) func(name string) bool {
@@ -38,8 +43,16 @@ func designated(fault string) func(name string) bool {
 	switch fault {
 	case "omit-fib-acks":
 		return has("FIB ACK")
-	case "empty-get", "incomplete-get":
+	case "empty-get", "incomplete-get", "get-mislabels-ni":
 		return has("Get for installed")
+	case "get-omits-nh":
+		return has("Get for installed NH -", "Get for installed chain")
+	case "get-omits-nhg":
+		return has("Get for installed NHG -", "Get for installed chain")
+	case "get-omits-ipv4":
+		return has("Get for installed IPv4", "Get for installed chain")
+	case "get-omits-ipv6":
+		return has("Get for installed IPv6")
 	case "ignore-flush":
 		return has("Flush of all entries", "Flush from client overriding", "Flush to specific network instance", "Flush all network instances", "Flush non-default network instances")
 	case "misreport-election-id":
@@ -229,13 +242,45 @@ func (f *faultyGet) Send(r *spb.GetResponse) error {
 			simrt.Active().Fault("srv-fault:" + f.fault)
 			return nil
 		}
+	case "get-omits-nh", "get-omits-nhg", "get-omits-ipv4", "get-omits-ipv6":
+		// the response lacks every entry of one AFT; everything else is delivered
+		c := &spb.GetResponse{}
+		for _, en := range r.Entry {
+			drop := false
+			switch en.Entry.(type) {
+			case *spb.AFTEntry_NextHop:
+				drop = f.fault == "get-omits-nh"
+			case *spb.AFTEntry_NextHopGroup:
+				drop = f.fault == "get-omits-nhg"
+			case *spb.AFTEntry_Ipv4:
+				drop = f.fault == "get-omits-ipv4"
+			case *spb.AFTEntry_Ipv6:
+				drop = f.fault == "get-omits-ipv6"
+			}
+			if drop {
+				simrt.Active().Fault("srv-fault:" + f.fault)
+				continue
+			}
+			c.Entry = append(c.Entry, en)
+		}
+		if len(c.Entry) == 0 {
+			return nil
+		}
+		r = c
+	case "get-mislabels-ni":
+		c := proto.Clone(r).(*spb.GetResponse)
+		for _, en := range c.Entry {
+			simrt.Active().Fault("srv-fault:" + f.fault)
+			en.NetworkInstance += "-other"
+		}
+		r = c
 	}
 	return f.GRIBI_GetServer.Send(r)
 }
 
 func installFault(sr *suiteRun, n *simnet.Net, s *server.Server, fault string) {
 	switch fault {
-	case "empty-get", "incomplete-get":
+	case "empty-get", "incomplete-get", "get-omits-nh", "get-omits-nhg", "get-omits-ipv4", "get-omits-ipv6", "get-mislabels-ni":
 		n.WrapGet = func(g spb.GRIBI_GetServer) spb.GRIBI_GetServer { return &faultyGet{GRIBI_GetServer: g, fault: fault} }
 	case "ignore-flush":
 		n.FlushHook = func(ctx context.Context, req *spb.FlushRequest, next func() (*spb.FlushResponse, error)) (*spb.FlushResponse, error) {
